@@ -456,6 +456,7 @@ def run(rep: Report, tier: str) -> None:
 
     rw = rep.rule("C13.f", "rows shown are exactly the window's: the entry-set iterator applies both bounds on the entry's own calendar date", floor=2)
     c10.check_iterator_window(rep, rw, m, "tables would show transactions outside the window or hide ones inside it")
+    _check_average_price(rep, fr)
     # the Account Balances table shows the replayed balances: the replay's own obligations (flows per class, identity final = acquired + received - sent,
     # one line per account, time order up to the to-date) are C07's; they are restated here because the table's figures are only as right as the replay
     from . import c07
@@ -687,3 +688,69 @@ def _check_legend(rep: Report, fr: FullReport) -> None:
     txt = unparse(init.node)
     ok = "from_date if from_date != MIN_DATE else" in txt and "to_date if to_date != MAX_DATE else" in txt and "years_2_accounting_method_names" in txt and "method.upper()" in txt
     rep.check(ok, r, init.module, init.qualname, "legend cells are filled from the method table and the two dates", "_initialize_output_file no longer fills the Accounting Method / From / To cells from years_2_accounting_method_names, from_date and to_date", loc(init.node))
+
+
+def _check_average_price(rep: Report, fr: FullReport) -> None:
+    """C13.i: 'average price' = sum of fiat_in_with_fee / sum of crypto_in over the lots acquired up to the to-date; the cell shows that value."""
+    prog, norm = fr.prog, fr.norm
+    r = rep.rule("C13.i", "average price = sum(fiat_in_with_fee) / sum(crypto_in) over the unfiltered in-set up to the to-date; the report cell shows computed_data.price_per_unit", floor=6)
+    fi = prog.func("rp2.computed_data", "ComputedData._compute_price_per_unit")
+    rep.analysed(fi)
+    loops = [n for n in fi.node.body if isinstance(n, ast.For) and isinstance(n.target, ast.Name)]
+    if len(loops) != 1:
+        raise AnalysisError("ComputedData._compute_price_per_unit: accumulation loop not found")
+    loop = loops[0]
+    ctx = norm.ctx_for(fi, subst_locals=False)
+    it = norm.term(loop.iter, ctx)
+    rep.check(it == ("sym", fi.param_names[0]) and "unfiltered" in fi.param_names[0], r, fi.module, fi.qualname, "iterates the unfiltered in-transaction set", f"the average-price loop iterates {show(it)[:120]}; expected the unfiltered in-transaction set parameter (the average covers everything acquired up to the to-date, whatever the from-date)", loc(loop))
+    se = SymExec(norm, ctx)
+    init = SPath()
+    t = ("sym", "t")
+    init.vars[loop.target.id] = (t, ("cls", "rp2.in_transaction:InTransaction"))
+    assigned = sorted({n.id for st in loop.body for n in ast.walk(st) if isinstance(n, ast.Name) and isinstance(n.ctx, ast.Store)} - {loop.target.id})
+    for v in assigned:
+        init.vars[v] = (("sym", f"{v}@head"), se._declared.get(v, ANY))
+    accs = {}
+    for p in se.run(loop.body, init):
+        if p.exit != "fall":
+            continue
+        extra = [c for c in p.conds() if not (c[0] == "cmp" and "to_date" in show(c))]
+        rep.check(not extra, r, fi.module, fi.qualname, "every lot up to the to-date is counted", f"a lot is counted only under {[show(c)[:100] for c in extra]}", loc(loop))
+        for v in assigned:
+            fv = p.vars.get(v, (None,))[0]
+            head = ("sym", f"{v}@head")
+            if fv is not None and fv[0] == "add" and head in fv[1]:
+                accs[v] = mk_add([x for x in fv[1] if x != head])
+    want_num, want_den = ("fld", t, "InTransaction.__fiat_in_with_fee"), ("fld", t, "InTransaction.__crypto_in")
+    num = [v for v, d in accs.items() if tkey(d) == tkey(want_num)]
+    den = [v for v, d in accs.items() if tkey(d) == tkey(want_den)]
+    rep.check(len(num) == 1 and len(den) == 1, r, fi.module, fi.qualname, "accumulators: sum of fiat_in_with_fee and sum of crypto_in", f"the loop accumulates {dict((k, show(v)[:80]) for k, v in accs.items())}; expected one running sum of each lot's fiat_in_with_fee (cost including fees) and one of crypto_in", loc(loop))
+    rets = [n for n in ast.walk(fi.node) if isinstance(n, ast.Return) and n.value is not None]
+    ok = False
+    if len(rets) == 1 and num and den:
+        v = rets[0].value
+        q = v.body if isinstance(v, ast.IfExp) else v
+        ok = isinstance(q, ast.BinOp) and isinstance(q.op, ast.Div) and unparse(q.left) == num[0] and unparse(q.right) == den[0]
+        for name in (num[0], den[0]):
+            inits = [n for n in fi.node.body[: fi.node.body.index(loop)] if isinstance(n, (ast.Assign, ast.AnnAssign)) and unparse(n.targets[0] if isinstance(n, ast.Assign) else n.target) == name]
+            ok = ok and len(inits) == 1 and unparse(inits[0].value) == "ZERO"
+    rep.check(ok, r, fi.module, fi.qualname, "average price = <sum of cost> / <sum of amount>, both from ZERO", f"_compute_price_per_unit returns {short(rets[0].value, 120) if rets else None}; expected the fiat running sum divided by the crypto running sum, both starting from ZERO", loc(fi.node))
+    # stored, exposed and written
+    cd = prog.cls("rp2.computed_data", "ComputedData")
+    defs = fr.m.field_defs(cd).get("ComputedData.__filtered_price_per_unit", [])
+    ok = len(defs) == 1 and defs[0][1][0] == "call" and defs[0][1][1].endswith("_compute_price_per_unit") and dict(defs[0][1][2]).get("to_date") == ("sym", "to_date") and "__unfiltered_in_transaction_set" in show(dict(defs[0][1][2]).get(fi.param_names[0], ("unk", "")))
+    rep.check(ok, r, cd.module, "ComputedData.__init__", "price_per_unit is computed from input_data.unfiltered_in_transaction_set and this ComputedData's to_date", f"ComputedData stores {[show(d[1])[:160] for d in defs]} as its average price", loc(cd.node))
+    getter = prog.func("rp2.computed_data", "ComputedData.price_per_unit")
+    gt = norm.inline(getter, ("sym", "cd"), {}, Ctx(cd.module, cd))
+    rep.check(gt == ("fld", ("sym", "cd"), "ComputedData.__filtered_price_per_unit"), r, cd.module, getter.qualname, "price_per_unit returns the stored average", f"ComputedData.price_per_unit normalises to {show(gt)[:120]}", loc(getter.node))
+    ga = prog.func(FR, f"{GEN}.__generate_asset")
+    calls = [n for n in ast.walk(ga.node) if isinstance(n, ast.Call) and isinstance(n.func, ast.Attribute) and n.func.attr == "__generate_average_price_per_unit"]
+    ok = len(calls) == 1 and any(unparse(a) == "computed_data.price_per_unit" for a in list(calls[0].args) + [k.value for k in calls[0].keywords])
+    rep.check(ok, r, FR, ga.qualname, "the average-price table receives computed_data.price_per_unit", f"__generate_asset calls the average-price writer as {[short(c, 100) for c in calls]}", loc(ga.node))
+    w = prog.func(FR, f"{GEN}.__generate_average_price_per_unit")
+    rep.analysed(w)
+    wctx = norm.ctx_for(w, subst_locals=False)
+    vals = [norm.term(n, wctx) for n in ast.walk(w.node) if isinstance(n, ast.Call) and isinstance(n.func, ast.Attribute) and n.func.attr == "_fill_cell"]
+    shown = [dict(v[2]).get("value") for v in vals if v[0] == "call"]
+    ok = sum(1 for x in shown if x == ("sym", "price_per_unit")) == 1 and all(x == ("sym", "price_per_unit") or (x is not None and x[0] in ("const", "xcall", "fstr")) for x in shown)
+    rep.check(ok, r, FR, w.qualname, "the cell shows the average price itself (unrounded)", f"the average-price writer puts {[show(x)[:60] for x in shown if x is not None]} into its cells; expected the price_per_unit argument unchanged in exactly one cell (labels elsewhere)", loc(w.node))
